@@ -47,8 +47,6 @@ struct Obs {
     iter_skip1: Vec<Vec<f64>>,
     iter_step2: Vec<Vec<f64>>,
     iter_nth_last: Option<Vec<f64>>,
-    empty_indef_len: usize,
-    empty_int_len: usize,
 }
 
 fn seg_flat<U: Flat>(s: &Segment<U>) -> Vec<f64> {
@@ -66,7 +64,6 @@ where
     crate::runner::lib(|| {
         let f = pw.integral(k0);
         let g = pw.indefinite();
-        let empty: Piecewise<T> = Piecewise { segments: Vec::new() };
         Obs {
             int_ends: f.segments.iter().map(|s| s.end).collect(),
             int_flat: f.segments.iter().map(seg_flat).collect(),
@@ -85,8 +82,6 @@ where
             iter_skip1: Segment::integral_iter_ref(pw.segments.iter(), k0).skip(1).map(|s| seg_flat(&s)).collect(),
             iter_step2: Segment::integral_iter(pw.segments.clone(), k0).step_by(2).map(|s| seg_flat(&s)).collect(),
             iter_nth_last: Segment::integral_iter_ref(pw.segments.iter(), k0).nth(pw.segments.len().saturating_sub(1)).map(|s| seg_flat(&s)),
-            empty_indef_len: empty.indefinite().segments.len(),
-            empty_int_len: empty.integral(k0).segments.len(),
         }
     })
 }
@@ -139,7 +134,7 @@ impl Prop for C11 {
         "C11"
     }
     fn rule(&self) -> String {
-        "case = (piece type: Poly0..Poly7 or Log<Poly0..Poly8> (type is part of the case), 1..=L pieces (L=8 quick, 24 thorough) with ends from positive lattices (duplicates, ends one ulp apart; shifted by 0/-1/-2.5 for polynomial pieces so that ends straddle 0), piece j's coefficients = pool of moderate numbers rotated by 3j, pool and k0.y times a common power of two (1 in 70% of cases, else 2^k with k uniform in ±250); all abscissae (ends, k0.x, evaluation points) times a common power of two 2^k (k in -100..40, 1 case in 5); 1 case in 6 has an OPEN-ENDED last piece (end = +inf, f64::MAX or 1e200); knot k0 with x strictly inside the first piece / exactly at its end / beyond it (>0 for logs), y any; evaluation points from the list's alphabet: at every end, one ulp either side, midpoints, beyond both extremes). Oracle: per-piece exact integrals (polynomials: exact dyadic powers, 384-bit division; logs: t·Q(ln t) closed form), cumulative magnitude W_j = |k0.y| + Σ_{l<=j}(M_l(left_l)+M_l(right_l)), tolerance 160(j+1)u·W_j (+1e-12·W_j for quartic pieces). Clauses: (1) same number of pieces, every end bit-identical; (2) first piece passes through k0; (3) adjacent pieces agree at every interior breakpoint; (4) every piece is an antiderivative of its integrand (F_i(b)-F_i(a) vs exact); (5) when k0.x < e_0: Piecewise::evaluate(t) = k0.y + ∫_{k0.x}^t f summed exactly over the pieces crossed; (6) indefinite(): first piece bit-identical to segments[0].indefinite(), clauses 1,3,4 again, empty input gives empty output; (7) integral_iter (by value) and integral_iter_ref yield bit-identical pieces equal to Piecewise::integral, also when fed through iterator adaptors (filter / skip_while that keep everything; their size_hint lower bound is 0). Non-trivial: >=3 pieces and (k0.x strictly inside the first piece or an evaluation >= 2 breakpoints away from k0.x).".into()
+        "case = (piece type: Poly0..Poly7 or Log<Poly0..Poly8> (type is part of the case), 1..=L pieces (L=8 quick, 24 thorough) with ends from positive lattices (duplicates, ends one ulp apart; shifted by 0/-1/-2.5 for polynomial pieces so that ends straddle 0), piece j's coefficients = pool of moderate numbers rotated by 3j, pool and k0.y times a common power of two (1 in 70% of cases, else 2^k with k uniform in ±250); all abscissae (ends, k0.x, evaluation points) times a common power of two 2^k (k in -100..40, 1 case in 5); 1 case in 6 has an OPEN-ENDED last piece (end = +inf, f64::MAX or 1e200); knot k0 with x strictly inside the first piece / exactly at its end / beyond it (>0 for logs), y any; evaluation points from the list's alphabet: at every end, one ulp either side, midpoints, beyond both extremes). Oracle: per-piece exact integrals (polynomials: exact dyadic powers, 384-bit division; logs: t·Q(ln t) closed form), cumulative magnitude W_j = |k0.y| + Σ_{l<=j}(M_l(left_l)+M_l(right_l)), tolerance 160(j+1)u·W_j (+1e-12·W_j for quartic pieces). Clauses: (1) same number of pieces, every end bit-identical; (2) first piece passes through k0; (3) adjacent pieces agree at every interior breakpoint; (4) every piece is an antiderivative of its integrand (F_i(b)-F_i(a) vs exact); (5) when k0.x < e_0: Piecewise::evaluate(t) = k0.y + ∫_{k0.x}^t f summed exactly over the pieces crossed; (6) indefinite(): first piece bit-identical to segments[0].indefinite(), clauses 1,3,4 again; (7) integral_iter (by value) and integral_iter_ref yield bit-identical pieces equal to Piecewise::integral, also when fed through iterator adaptors (filter / skip_while that keep everything; their size_hint lower bound is 0). Non-trivial: >=3 pieces and (k0.x strictly inside the first piece or an evaluation >= 2 breakpoints away from k0.x).".into()
     }
     fn cases(&self, tier: Tier) -> u64 {
         tier.pick(80_000, 2_000_000)
@@ -314,9 +309,7 @@ impl Prop for C11 {
         if !crate::model::nums_eq(&obs.ind_flat[0], &obs.seg0_indef_flat) {
             fail!("{tyname}.indefinite(): first piece {:?} is not segments[0].indefinite() = {:?}", obs.ind_flat[0], obs.seg0_indef_flat);
         }
-        if obs.empty_indef_len != 0 || obs.empty_int_len != 0 {
-            fail!("{tyname}: empty input gives {} / {} pieces (indefinite / integral)", obs.empty_indef_len, obs.empty_int_len);
-        }
+        // (a function with zero pieces is outside the property's "1..n pieces": what integral() does with it is not judged)
         let pv = |vals: &[f64], i: usize, which: usize| vals[4 * i + which];
         // ---- clause 2: first piece through k0 ----
         ctx.comparisons += 1;
